@@ -139,8 +139,8 @@ func solveOne(script, file string, opts SolveOpts) (SolverResult, []SolverResult
 }
 
 type job struct {
-	vc *FuncVC
-	o  *Obligation
+	vc    *FuncVC
+	o     *Obligation
 	cover bool
 }
 
